@@ -125,6 +125,15 @@ class Context:
         assert isinstance(sym, ast.Symbol)
         return sym
 
+    @staticmethod
+    def is_qualified_name(expr):
+        """Test if the expression has the form of a name in a module"""
+        while isinstance(expr, ast.Member):
+            expr = expr.base
+            if isinstance(expr, ast.Identifier):
+                return True
+        return False
+
     def get_constant_value(self, const):
         """Get the constant value, calculate if required"""
         assert isinstance(const, ast.Constant)
@@ -208,7 +217,7 @@ class Context:
         elif isinstance(expr, ast.TypeCast):
             a = self.eval_const(expr.a)
             return self._fit(a, expr.to_type, expr.loc)
-        elif isinstance(expr, ast.Identifier):
+        elif isinstance(expr, ast.Identifier) or self.is_qualified_name(expr):
             target = self.resolve_symbol(expr)
             if isinstance(target, ast.Constant):
                 return self.get_constant_value(target)
